@@ -92,6 +92,7 @@ func Exec(t *testing.T, p *Plan, replay bool) (res *Result) {
 		simfs.Reset(cwd)
 		simfs.StepFn = simrt.Step
 		simfs.WhoFn = simrt.CurName
+		simfs.YieldFn = func(site string) { simrt.Yield(site) }
 		for _, f := range p.Files {
 			if f.Dir {
 				simfs.AddDir(f.Path)
